@@ -157,6 +157,22 @@ Theorem soft_update_vacuous_refuted :
 Proof. exact soft_update_vacuous_refuted_thm. Qed.
 Print Assumptions soft_update_vacuous_refuted.
 
+(* the pinned Rainbow PER loss (importance weights delivered as a (B,1) column, broadcast to (B,B)) is NOT the
+   mean of the individually weighted losses: witness weights [1/4; 1], losses [1; 3] *)
+Theorem rainbow_per_broadcast_refuted :
+  exists weights elems, length weights = length elems /\
+    ~ rb_loss_pinned_broadcast weights elems == rb_loss weights elems.
+Proof. exact rainbow_per_broadcast_refuted_lemma. Qed.
+Print Assumptions rainbow_per_broadcast_refuted.
+
+(* ... but it coincides with it whenever all importance weights are equal — which is why a test with uniform
+   weights cannot see the difference *)
+Theorem rainbow_per_broadcast_invisible_for_equal_weights : forall c ws es,
+  Forall (fun w => w == c) ws -> length ws = length es -> es <> [] ->
+  rb_loss_pinned_broadcast ws es == rb_loss ws es.
+Proof. exact rb_loss_pinned_equal_weights. Qed.
+Print Assumptions rainbow_per_broadcast_invisible_for_equal_weights.
+
 (* ---------------------------------------------------------------- non-vacuity *)
 Example rows_related_nonvacuous :
   let x  := {| d_qe := [1; 2]; d_a := 1%nat; d_r := 3; d_d := 1; d_qon := [5; 0]; d_qtn := [7; 9] |} in
@@ -172,3 +188,23 @@ Proof. split; vm_compute; reflexivity. Qed.
 Example soft_delay_values :
   map Qred (run_soft (1 # 2) 2 0 [0] [[8]; [8]; [8]; [8]]) = [6] /\ select_updates 2 0 [[1]; [2]; [3]; [4]] = [[2]; [4]].
 Proof. split; vm_compute; reflexivity. Qed.
+
+(* hypotheses of done_masks_next_rainbow are satisfiable by two genuinely different next distributions,
+   and a row that is NOT done distinguishes them *)
+Example rainbow_done_nonvacuous :
+  let sup := [-2; -1; 0; 1; 2] in
+  let x  := {| r_r := 1 # 2; r_d := 1; r_p := [1 # 2; 1 # 2; 0; 0; 0]; r_logp := [-1; -2; -3; -4; -5] |} in
+  let x' := {| r_r := 1 # 2; r_d := 1; r_p := [0; 0; 0; 1 # 4; 3 # 4]; r_logp := [-1; -2; -3; -4; -5] |} in
+  let y  := {| r_r := 1 # 2; r_d := 0; r_p := r_p x;  r_logp := r_logp x |} in
+  let y' := {| r_r := 1 # 2; r_d := 0; r_p := r_p x'; r_logp := r_logp x |} in
+  qsum (r_p x) == qsum (r_p x') /\
+  rb_elem (1 # 2) (-2) 2 1 sup x == 7 # 2 /\ rb_elem (1 # 2) (-2) 2 1 sup x' == 7 # 2 /\
+  ~ rb_elem (1 # 2) (-2) 2 1 sup y == rb_elem (1 # 2) (-2) 2 1 sup y'.
+Proof. cbv zeta. repeat split; try (vm_compute; reflexivity). vm_compute. discriminate. Qed.
+
+Example soft_update_values :
+  let online := {| exposed := [1; 2]; hidden := [9] |} in
+  let target := {| exposed := [0; 4]; hidden := [7] |} in
+  map Qred (weights (soft_update (1 # 4) online target)) = [1 # 4; 7 # 2; 7] /\
+  Qred (cell_run (1 # 2) 0 [8; 8]) = 6 /\ Qred (qpow (1 - (1 # 2)) 2 * 0 + wsum (1 # 2) [8; 8]) = 6.
+Proof. repeat split; vm_compute; reflexivity. Qed.
